@@ -55,6 +55,7 @@ package nsqd
 
 //@ func NewChannel(topicName string, channelName string, nsqd *NSQD, deleteCallback func(*Channel)) *Channel
 //@   props C05 C07 C01 C08
+//@   nochan
 //@   requires ctorOpts(nsqd)
 //@   ensures[identity] result != nil && fresh(result) && result.name == channelName && result.topicName == topicName && result.nsqd == nsqd
 //@   ensures[has-backend] result.backend != nil
